@@ -85,6 +85,24 @@ def run(tier, seed):
                 and p["bor_cmp"] == "Equal" and p["hashset_finds"] and p["btreeset_finds"]
             if not ok:
                 v.violation("two forms (plain / node-local, or node-local with different opaque bytes) of the same identifier are not recognised as the same (==, hash, cmp, set lookup)", {**case, "obs": p})
+    # node-local identifiers inside frames with a distribution header (the path received frames take)
+    lc = os.path.join(lib.outdir(PID), "local_cases.ndjson")
+    lo = os.path.join(lib.outdir(PID), "local_obs.ndjson")
+    g = lib.tlc("gen/Gen_DistHeader.tla", "gen/Gen_DistHeader_quick.cfg", PID, "gen_dh", workers=1, env={"MODE": "cases", "OUT": os.path.join(lib.outdir(PID), "dh_cases_unused.ndjson"), "OUT_LOCAL": lc})
+    if g.rc != 0 or not os.path.exists(lc):
+        raise lib.ToolError("Gen_DistHeader did not produce the node-local identifier frames")
+    lcases = lib.read_ndjson(lc)
+    lib.harness(["dh-local", lc, lo])
+    for o in lib.read_ndjson(lo):
+        c = lcases[o["i"]]
+        v.case("dhlocal" + json.dumps(c["bytes"]))
+        case = {"payload": E.short(c["payload"], 300), "atom_references_in_the_header": c["header_refs"], "frame": c["bytes"][:80]}
+        if not o["ok"]:
+            v.violation("a frame with a node-local identifier behind a distribution header could not be decoded", {**case, "err": o["err"]})
+        elif not lib.same_value(o["payload"], c["payload"]):
+            v.violation("identifier fields or node-local hash changed when decoded behind a distribution header", {**case, "decoded": E.short(o["payload"], 300)})
+        elif o["reencoded"] != c["payload_enc"]:
+            v.violation("an identifier received behind a distribution header is not re-emitted byte-for-byte", {**case, "expected": c["payload_enc"][:80], "got": o["reencoded"][:80]})
     v.sample({"twins": len(tw)})
     v.cov["rule"] = ("TLC enumerates 8 identifiers (pid/port/ref; node names incl. UTF-8 and 256 bytes; 1..5 words; 64-bit port numbers) in plain form and with "
                      "3 node-local hashes, each in 13-14 contexts (tuple, list element, list tail, map key/value/both, fun environment, fun owner, nested twice); "
